@@ -136,6 +136,9 @@ def run(ctx):
 
         # ---- per-path closure
         pc = [c for c in cls if c.kind == "closure" and sum(1 for _, t in c.calls() if t.callee.is_("ignore::gitignore::Gitignore::matched")) >= 2]
+        if not pc:
+            # the per-path decision moved into a named method that the closure calls: the normalised tree of the closure holds the spliced body
+            pc = [c for c in cls if c.kind == "closure" and sum(1 for cd_, _ in thir.calls_in(thir.root(c)) if strip_generics(cd_).endswith("gitignore::Gitignore::matched")) >= 2]
         c = ctx.anchor_one("R11.2", "per-path decision closure", pc)
         croot = thir.root(c)
         pathx.SUBST = pathx.let_substitutions(croot)
